@@ -1,4 +1,5 @@
 import VncModel.Region.Misc
+import VncModel.Region.IterProof
 import VncModel.Leaf.EquivRegion
 /-!
 # C11 — Region algebra behaves as set algebra on pixels
@@ -25,9 +26,8 @@ fact that the fuel never runs out on well-formed operands.
 **Partial / guarded**: nothing is `_partial`.  `bbox_den` assumes `InRange` = "the coordinates are C
 `int`s" (true of every region the code can hold; the model's `Int` is unbounded); `bbox_wf` and
 `bbox_empty` have no hypothesis.  (Until /repo 4069cf1 `sraRgnBBox` was wrong for a region ending at
-`INT_MIN+1`; fixed, regression case in corpus/C11.)  The iterator is modelled by the sequence it
-yields (`Region.rects`), not by a small-step model of `sPtrs/ptrPos`; the real iterator is driven in
-all four direction pairs by the correspondence run.  Section `T1` ties the clippers and
+`INT_MIN+1`; fixed, regression case in corpus/C11.)  The iterator has a small-step model (`IterModel.lean`) proved to
+refine the sequence `Region.rects` (`iter_refines`); the iterator laws are stated about `rects`.  Section `T1` ties the clippers and
 `sraRgnCreateRect`'s guard to the C text itself.
 -/
 namespace VncModel.Props.C11
@@ -157,6 +157,24 @@ example : Region.bbox [⟨0, 5, [⟨-2147483648, -2147483647, ()⟩]⟩] = [⟨0
 /-! ## iteration: `sraRgnGetIterator` / `sraRgnGetReverseIterator` / `sraRgnIteratorNext`
 
 `r.rects reverseX reverseY` is the sequence of rectangles the iterator yields. -/
+
+/-- **the C iterator's own stepping logic refines `rects`**: `Region.iterAll` runs the small-step
+model of `sraRgnGetReverseIterator` + `sraRgnIteratorNext` (`Region/IterModel.lean`: the `sPtrs`
+cursors with `ptrPos`, the sentinel comparisons of the two `while` loops, `sraReverse`'s
+`(ptrPos&2) && reverseX || !(ptrPos&2) && reverseY`) until it returns 0.  On every well-formed
+region, for all four direction pairs, it terminates without a fault (no sentinel dereferenced, no
+NULL link followed, the "offset is wrong" branch never taken) and yields exactly `r.rects rx ry` —
+so all `iter_*` laws below hold for what the code's state machine produces.  The driver executes
+this small-step model for every `iter` op of the correspondence run. -/
+theorem iter_refines (r : Region) (h : r.WF) (rx ry : Bool) :
+    r.iterAll rx ry = some (r.rects rx ry) :=
+  iterAll_eq_rects r (fun b hb => (Sorted.all h b hb).2.2) rx ry
+
+/-- `sraRgnGetIterator(r)` is `sraRgnGetReverseIterator(r, 0, 0)` -/
+theorem getIterator_is_forward (r : Region) : getIterator r = getReverseIterator r false false := rfl
+
+example : Region.iterAll [⟨0, 2, [⟨0, 3, ()⟩, ⟨4, 5, ()⟩]⟩, ⟨2, 4, [⟨1, 2, ()⟩]⟩] true false =
+    some [⟨4, 0, 5, 2⟩, ⟨0, 0, 3, 2⟩, ⟨1, 2, 2, 4⟩] := by decide
 
 /-- the rectangles yielded are non-empty … -/
 theorem iter_nonempty (r : Region) (h : r.WF) (rx ry : Bool) :
